@@ -1067,7 +1067,7 @@ fingerprint and delayed-write queue checked around every operation; every search
 prescribed identity. non-trivial = the connection saw a bind by a non-anonymous account or a refused/failed bind, AND a \
 search that returned entries".into();
     let rt = tokio::runtime::Builder::new_current_thread().enable_all().build().expect("rt");
-    let n_worlds = if args.thorough { 40 } else { 8 };
+    let n_worlds = if args.thorough { 30 } else { 8 };
     let mut foreign: Vec<String> = vec![];
     for wn in 0..n_worlds {
         let toks = rt.block_on(one_world(&mut rng, &mut sink, wn, args.thorough, &foreign));
